@@ -619,6 +619,12 @@ impl ObjectHandle {
     Self { ptr }
   }
 
+  /// The address of the managed object
+  #[cfg(feature = "verif")]
+  pub fn verif_addr(&self) -> usize {
+    self.ptr.as_ptr() as usize
+  }
+
   /// Retrieve the header from this array
   #[inline]
   fn header(&self) -> &ObjHeader {
